@@ -23,20 +23,49 @@ def wkey(i):
     and every key differs from every other in its second and third word (a partially moved key is a wrong key)"""
     return f'{i // 5},{1000 + 3 * i},{2000 - i}'
 
+WIDE = [-2**63, -2**63 + 1, -2**32 - 1, -2**32, -2**31 - 1, -2**31, -1, 0, 1, 2**31 - 1, 2**31, 2**32, 2**32 + 1, 2**63 - 2, 2**63 - 1]
+def wide_ikey(i):
+    """Int keys whose differences do not fit 32 bits or overflow 64 (a comparison by subtraction loses or duplicates keys
+    here): the extremes of int64_t, neighbours of +-2^31 and +-2^32, then multiples of 2^32 of both signs"""
+    if 0 <= i < len(WIDE): return str(WIDE[i])
+    if i < 0: return str(-(2**62) + i)
+    m = (i - 7) * 2**32 + i % 3
+    return str(-m if i % 2 else m)
+
+HIGH = ['\u00e9', '\u00df', '\u20ac', '\U0001F600', '\u007f', 'z', 'A', '~', '\u0101', '\u07ff', '\u0800', '\uffee']
+def high_skey(i):
+    """String keys with bytes >= 0x80 (valid UTF-8, so that the driver reads the same bytes): strcmp compares them as unsigned
+    char, above every ASCII byte; mixed with ASCII neighbours and prefixes of each other"""
+    if i < 0: return 'Z' + str(-i)
+    x = i * 31 + 7
+    t = ''
+    while True:
+        t += HIGH[x % len(HIGH)]
+        x //= len(HIGH)
+        if x == 0: break
+    return t + ('' if i % 4 else 'a' * (i % 3))
+
 def kindkey(kind):
-    return {'i': ikey, 's': skey, 'w': wkey}[kind[0]]
+    return {'i': ikey, 's': skey, 'w': wkey, 'I': wide_ikey, 'S': high_skey}[kind[0]]
+
+def opkind(kind):
+    """the kind token of the op file (the key families I = wide Int keys, S = String keys with high bytes are generator-side)"""
+    return kind[0].lower() + kind[1:]
 
 def vwidth(kind):
-    return int(kind[1:]) if len(kind) > 1 else 1
+    return 0 if kind[1:] == 's' else int(kind[1:]) if len(kind) > 1 else 1
 
 def val(kind, v):
     """a value of the tree's value type made from the number v: every 8-byte word distinct, and distinct from the word at
-    the same place in the value made from any other number"""
+    the same place in the value made from any other number; String values of varying length (an update reallocates)"""
     w = vwidth(kind)
+    if w == 0: return 'v' + str(v) + 'q' * (abs(v) * 7 % 41)
     return ','.join(str(v if j == 0 else v * 7 + j * 1000003) for j in range(w))
 
 KINDS_EQ = ('i', 's')                                  # key and value of the same size (8/8)
 KINDS_NE = ('i3', 'w', 'i5', 's3', 'w5', 'w3')          # 8/24, 24/8, 8/40, 8/24, 24/40, 24/24
+KINDS_STR = ('ss', 'is', 'ws')                         # String values (own a buffer that assign reallocates): 8/8, 8/8, 24/8
+KINDS_ORDER = ('I', 'S', 'I3', 'Ss')                    # key families that stress the comparison (see wide_ikey / high_skey)
 
 class Gen:
     """builds one op file; keeps the key sets it created so that removals mostly hit (no shape knowledge)"""
@@ -50,7 +79,7 @@ class Gen:
     def v(self, v): return val(self.kind, v)
     def new(self, t, init=()):
         self.keys[t] = set(i for i, _ in init)
-        self.lines.append(f"new {t} {self.kind}" + ''.join(f' {self.k(i)} {self.v(v)}' for i, v in init))
+        self.lines.append(f"new {t} {opkind(self.kind)}" + ''.join(f' {self.k(i)} {self.v(v)}' for i, v in init))
     def set(self, t, i, v=None):
         if v is None: v = self.rng.randrange(-1000, 1000)
         self.keys[t].add(i); self.lines.append(f'set {t} {self.k(i)} {self.v(v)}')
@@ -212,7 +241,7 @@ def c_assign_edge(rng, kt, ks, n):
     L = []
     kS = kindkey(ks)
     def newtree(t, kind, items):
-        L.append(f'new {t} {kind}' + ''.join(f' {kindkey(kind)(i)} {val(kind, v)}' for i, v in items))
+        L.append(f'new {t} {opkind(kind)}' + ''.join(f' {kindkey(kind)(i)} {val(kind, v)}' for i, v in items))
     combos = [(p, d, o) for p in SRC_PREPS for d in DST_PREPS for o in ('assign', 'copy')]
     rng.shuffle(combos)
     for p, d, o in combos[:n]:
@@ -276,9 +305,65 @@ def c_relocate(rng, kind, n):
         if j % 5 == 2: g.op('copy 1 0'); g.op('check 1'); g.op('rem2 1'); g.op('iter 1')
         if j % 7 == 3: g.set(0, rng.randrange(n))
         if j % 8 == 5: g.op('assign 0 0')
-        if j % 9 == 4: g.op('new 2 ' + kind); g.op('assign 2 0'); g.op('rem2 2'); g.op('riter 2')
+        if j % 9 == 4: g.op('new 2 ' + opkind(kind)); g.op('assign 2 0'); g.op('rem2 2'); g.op('riter 2')
     g.iters(0)
     return g.lines
+
+def c_own(rng, kind, n, nops):
+    """the tree's OWN key and value objects as arguments: set with the key object foreach hands out (setk), with the value
+    object get returns for the same or for another key (setv / setkv, also for an absent key: a new node whose value is copied
+    out of another node), get / mem / rem given the own key object (rem: the argument lives in the node that is removed), and
+    whole walks `foreach (K in t) set(t, K, v)` / `set(t, K, get(t, K))` — each followed by the full dump and oracle check"""
+    g = Gen(rng, kind); g.new(0, [(i, i) for i in rng.sample(range(2 * n), n)])
+    U = list(range(2 * n))
+    for j in range(nops):
+        present = sorted(g.keys[0])
+        pk = lambda: rng.choice(present) if present and rng.random() < 0.9 else rng.choice(U)
+        r = rng.random()
+        if r < 0.16: g.op(f'setk 0 {g.k(pk())} {g.v(rng.randrange(-500, 500))}')
+        elif r < 0.30:
+            a, b = pk(), pk()
+            if rng.random() < 0.5: b = a
+            g.op(f'setkv 0 {g.k(a)} {g.k(b)}')
+        elif r < 0.46:
+            a = rng.choice(U) if rng.random() < 0.4 else pk(); b = pk()
+            if rng.random() < 0.4: b = a
+            g.op(f'setv 0 {g.k(a)} {g.k(b)}')
+            if b in g.keys[0]: g.keys[0].add(a)
+        elif r < 0.54: g.op(f'getk 0 {g.k(pk())}')
+        elif r < 0.60: g.op(f'memk 0 {g.k(pk())}')
+        elif r < 0.70:
+            a = pk(); g.op(f'remk 0 {g.k(a)}'); g.keys[0].discard(a)
+        elif r < 0.76: g.op(f'walk 0 {g.v(rng.randrange(-500, 500))}')
+        elif r < 0.82: g.op('walkself 0')
+        elif r < 0.90: g.set(0, rng.choice(U))
+        elif r < 0.94: g.op(rng.choice(['rem2 0', 'remroot 0']))
+        else: g.iters(0)
+        if j % 11 == 10: g.op('check 0'); g.op('copy 1 0'); g.op('walkself 1'); g.op('check 1')
+    g.op('walkself 0'); g.op('walk 0 ' + g.v(1)); g.iters(0); g.op('check 0')
+    g.op('resize 0 0'); g.op('walk 0 ' + g.v(2)); g.op('walkself 0'); g.op(f'setk 0 {g.k(1)} {g.v(3)}'); g.op(f'setv 0 {g.k(1)} {g.k(2)}')
+    return g.lines
+
+def c_foreign(rng, n):
+    """assign(t, obj) for a map that is not a Tree (any kind, in a given iteration order, with repeated keys, empty), into
+    trees of the same and of other kinds, followed by use; and the constructor with an odd number of arguments"""
+    L = []
+    allk = KINDS_EQ + KINDS_NE + KINDS_STR + KINDS_ORDER
+    for rnd in range(n):
+        kt, ks = rng.choice(allk), rng.choice(allk)
+        kT, kS = kindkey(kt), kindkey(ks)
+        tk = rng.sample(range(30), rng.randrange(0, 7))
+        L.append(f'new 0 {opkind(kt)}' + ''.join(f' {kT(i)} {val(kt, i)}' for i in tk))
+        m = rng.randrange(0, 9)
+        sk = [rng.randrange(12) for _ in range(m)]           # repeats are likely: the last binding of a key wins
+        L.append(f'assignmap 0 {opkind(ks)}' + ''.join(f' {kS(i)} {val(ks, j * 13 + i)}' for j, i in enumerate(sk)))
+        L += ['len 0', 'iter 0', 'riter 0', 'check 0']
+        for i in (sk[:2] + [13]): L += [f'get 0 {kS(i)}', f'mem 0 {kS(i)}']
+        L += [f'set 0 {kS(20)} {val(ks, 20)}', 'rem2 0', 'remroot 0', 'walkself 0', 'check 0', 'copy 1 0', 'check 1']
+        odd = rng.randrange(0, 3)
+        L.append(f'newodd 2 {opkind(ks)}' + ''.join(f' {kS(i)} {val(ks, i)}' for i in range(odd)) + f' {kS(9)}')
+        L += ['len 2', 'assignmap 2 i 1 1', 'check 0']
+    return L
 
 def c_exhaustive(n, kind, chunk):
     """every insertion order of n keys, each followed by a different removal order"""
@@ -288,7 +373,7 @@ def c_exhaustive(n, kind, chunk):
     for idx in chunk:
         ins = perms[idx % len(perms)]
         rm = perms[(idx * 7 + 3) % len(perms)]
-        lines.append(f"new 0 {kind}")
+        lines.append(f"new 0 {opkind(kind)}")
         lines += [f'set 0 {k(i)} {val(kind, i)}' for i in ins]
         lines += [f'rem 0 {k(i)}' for i in rm]
     return lines
@@ -337,7 +422,11 @@ class C03(Spec):
                   'dump equality after every op), not by proof; parent links are not in the functional model: the harness checks '
                   'parent(child)==node on every dump and iteration (which walks them) is compared op by op; cmp of Int/String is '
                   'assumed lawful (C09). Self-assignment assign(t,t) is part of the histories (no-op since the fix a3140e4; the '
-                  'behaviour before the fix is kept as an explicit old variant with its refuted witness).')
+                  'behaviour before the fix is kept as an explicit old variant with its refuted witness). '
+                  'C03_own_objects_refine extends the history theorem to calls that are given the tree\'s own key / value objects, to '
+                  'assign from a foreign map and to the odd-count constructor; it holds because String_Assign returns when given its own '
+                  'buffer (flag read from src/String.c; the model without it is undefined on the witness of C03_set_own_string_old_refuted). '
+                  'C03_int_keys / C03_string_keys instantiate the order with the translated Int_Cmp and with strcmp on bytes.')
     rule = ('op files over Int, String and 24-byte struct keys (own lexicographic Cmp) with Int, 24-byte and 40-byte plain struct '
             'values, i.e. node layouts with ksize = vsize and with ksize != vsize in both directions; every 8-byte word of every '
             'value (and struct key) is distinct, and whole keys and whole values are dumped and compared after every op; '
@@ -353,13 +442,25 @@ class C03(Spec):
             'assign_copy_from_empty / _from_singleton / assign_across_layouts in the evidence); every insertion order of n<=6 keys followed by a removal order; large trees (hash dumps). After every mutating op '
             'the whole concrete tree is dumped and compared with the model, and the C oracle checks map contents, KeyError, iteration '
             'both ways, order, root colour, red-red, black heights, parent links, node count and the height bound. '
+            'Second layer (own_*, foreign*, sv_*, ord_* cases): set / get / mem / rem given the tree\'s OWN key object (obtained by '
+            'iterating) and value objects that live in its nodes (same node, another node, absent key), whole foreach walks that set '
+            'every key they visit, on String keys and String values (assignment of a String to itself: counter '
+            'string_assigned_from_itself) as well as Int / struct types; assign from a map that is not a Tree (harness type PMap, '
+            'repeated keys, empty, every kind); the odd-count constructor; String VALUES in the ordinary histories; Int keys at the '
+            'ends of int64_t and 2^31 / 2^32 apart, String keys with bytes >= 0x80. '
             'non-trivial item = a successful set or rem whose resulting tree holds >= 2 bindings (so that a fix-up, a rotation or a '
             'recolouring is possible); distinct = distinct (operation text, resulting concrete tree dump) pair. The evidence also '
             'lists how often each branch of Tree_Set_Fix / Tree_Rem_Fix was taken (branch_* counters, computed by the driver).')
     trusted_base = ('harness/h_tree.c + lean/Driver/Tree.lean (the model/implementation correspondence is testing: identical concrete '
                     'tree after every operation)',
                     'parent pointers are represented by the zipper path; parent(child)==node is checked on the C side on every dump',
-                    'Int_Cmp / strcmp behave as the lawful total orders `compare` on Int / String (property C09)',
+                    'the op files are run with Key.cmp = `compare` on Int / String / field lists; that Int_Cmp (translated) and strcmp on '
+                    'unsigned bytes are lawful orders is PROVED (C03_int_keys, C03_string_keys over CelloGen.Cmp.intCmp / Cello.Cmp.bytesCmp) '
+                    'and that they agree with `compare` is exercised by keys at the ends of int64_t, 2^31 / 2^32 apart and by UTF-8 keys '
+                    '(byte order = code point order); String_Cmp = strcmp of the buffers is C02\'s StringCmpIsStrcmp / C09',
+                    'a foreach walk that sets its own keys is run on the model as one setA step per key of the forward iteration taken '
+                    'BEFORE the walk (Tree_Set on a present key changes no link, C03_source_as_modelled pins that text); the dump after '
+                    'the walk is compared',
                     'destruct / free of keys and values is checked by ASan only (C05); the predecessor memcpy of Tree_Rem is modelled '
                     '(relocate: block move of header+key+header+value words with the widths from the Tree) and compared word by word',
                     'translate/g_tree.py (regular expressions and a small statement splitter over src/Tree.c, no C parser): it reads '
@@ -370,9 +471,21 @@ class C03(Spec):
                     'flow of Tree_Set_Fix / Tree_Rem_Fix (per case: condition chain and actions) and of the other mirrored functions is '
                     'compared as normalised TEXT with the text the model was written against (C03_source_as_modelled), i.e. the step '
                     'from that text to the zipper functions is by hand and validated by the differential check')
-    assumptions = ('keys are Int, ASCII Strings without blanks or a 24-byte plain struct with a lexicographic Cmp instance; values are '
-                   'Int or 24- / 40-byte plain structs; one key type and one value type per tree at a time; set is only given keys '
-                   'and values of the tree\'s types (cast raises otherwise: hypothesis WellTyped of the theorems)',
+    assumptions = ('keys are Int (whole int64_t range), Strings without blanks (ASCII and valid UTF-8 with bytes >= 0x80) or a 24-byte '
+                   'plain struct with a lexicographic Cmp instance; values are Int, String or 24- / 40-byte plain structs; one key '
+                   'type and one value type per tree at a time; set is only given keys '
+                   'and values of the tree\'s types (cast raises otherwise: hypothesis WellTyped / WellTypedA of the theorems)',
+                   'a key or value pointer obtained from the tree (iteration cursor, result of get) is used only while its node '
+                   'exists: it may be given back to set / get / mem / rem of the same tree (generated: setk setv setkv getk memk remk, '
+                   'walk / walkself = iteration interleaved with set of present keys, which changes no link), but no cursor is '
+                   'advanced and no such pointer is read after a rem / resize / assign / del that removed its node (the node is freed: '
+                   'use after free in the caller), and no insertion of a NEW key happens inside a foreach (rotations would not '
+                   'invalidate the cursor, but the walk would no longer be the map\'s key sequence)',
+                   'every tree is deleted by the driver with del; no collection runs between the operations of a history (the '
+                   'collector\'s view of a Tree is the subject of C01)',
+                   'the source of assign(tree, obj) is a Tree or a map whose iteration yields its keys once each in a fixed order and '
+                   'whose get returns the value beside the key (harness type PMap); String_Assign on an operand that is a VIEW into the '
+                   'target is known finding KF-C16-alias-operand and is not generated (the tree\'s own objects are whole objects)',
                    'sizes of key and value types are multiples of 8 (the model counts 8-byte words); other sizes misalign the '
                    'value header (known finding KF-C19-tree-misaligned-header) and are not generated',
                    'single thread; no allocation failure',
@@ -414,6 +527,20 @@ class C03(Spec):
             for kt, ks_ in [('i', 'i'), ('s', 's'), (rng.choice(KINDS_NE), rng.choice(KINDS_NE)),
                             (rng.choice(allk), rng.choice(allk)), ('i', rng.choice(KINDS_NE)), (rng.choice(KINDS_NE), 's')]:
                 add('edge_' + kt + '_' + ks_ + '_', c_assign_edge(rng, kt, ks_, 10 if quick else 80))
+            # the tree's own key / value objects as arguments (String keys and String values: assign of an object to itself)
+            for kind in ('s', 'ss', 'is', 'ws', 'i', rng.choice(KINDS_NE), 'Ss'):
+                add('own_' + kind + '_', c_own(rng, kind, 10 if quick else 60, 120 if quick else 1500))
+            add('foreign', c_foreign(rng, 8 if quick else 60))
+            # String values in the ordinary histories (in-place re-assignment and relocation of values that own memory)
+            for kind in KINDS_STR:
+                add('sv_rand_' + kind + '_', c_random(rng, kind, 250 if quick else 3000, rng.choice([14, 40])))
+                add('sv_reloc_' + kind + '_', c_relocate(rng, kind, 24 if quick else 160))
+                add('sv_assign_' + kind + '_', c_assign_copy(rng, kind, 12 if quick else 80))
+            # key families that stress the order: Int keys 2^31 / 2^32 apart and at the ends of int64_t, String keys with bytes >= 0x80
+            for kind in KINDS_ORDER:
+                add('ord_rand_' + kind + '_', c_random(rng, kind, 250 if quick else 3000, rng.choice([15, 40])))
+                add('ord_seq_' + kind + '_', c_sequential(rng, kind, rng.choice([15, 33] if quick else [64, 150]), rng.choice(['asc', 'desc', 'alt'])))
+                add('ord_two_' + kind + '_', c_remove_two_children(rng, kind, 30 if quick else 200))
         # exhaustive insertion orders
         import math
         allkinds = KINDS_EQ + KINDS_NE
